@@ -74,6 +74,12 @@ theorem mapping_ok (O : Options) (h0 : O.overwrites = []) : ∀ (t : Ty) (name p
     case str =>
       simp only [Spec.stringField, strDT_view, view_dict]
       split <;> simp [*]
+    case strRef =>
+      simp only [Spec.stringField, strDT_view, view_dict]
+      split <;> simp [*]
+    case cowStr =>
+      simp only [Spec.stringField, strDT_view, view_dict]
+      split <;> simp [*]
     case int t => cases t <;> rfl
   | .unit, name, path, nl, dt, nb, md, hp, hm => by
     simp only [mappingDT, Prod.mk.injEq] at hm; obtain ⟨rfl, rfl, rfl⟩ := hm
